@@ -6,8 +6,15 @@
    suite evaluates: Authorize.v/Token.v handlers with the request-object decisions of
    jar.go/ciba.go in front.  `xrefused x` = the answer x carries no code, access token, id token,
    callback page, request_uri or auth_req_id.  Configurations are exactly those the option API
-   builds: `build p opts = Some cfg`, for ALL option lists; `st` ranges over all states. *)
+   builds: `build p opts = Some cfg`, for ALL option lists; `st` ranges over all states.
+
+   The last section is about `step_gj` (Model/RequiredJar.v), the step function the c11jar suite
+   evaluates: requests that CARRY a request object (by value or by reference at /authorize, by
+   value at /par), through Model/Jar.v's init_auth_jar / push_auth_jar.  `session_source` is the
+   parameter set the session is built from: the object's alone under a FAPI profile, the object's
+   with the outer parameters filling the gaps otherwise. *)
 From Verif Require Import Base Scope Types Prog Pop Token Authorize System Config Required Rets ConfigProofs C11Proofs.
+From Verif Require Import Jar RequiredJar C11JarProofs.
 Local Open Scope N_scope.
 
 (* "required" options set the required flag AND enable the mechanism, whatever else is in the list
@@ -176,3 +183,114 @@ Theorem refresh_bound_needs_cert : forall cfg c b g,
   cf_tls_binding_enabled cfg = true -> is_nil (g_x5t g) = false -> b_cert b = 0 -> refresh_binding cfg c b g <> None.
 Proof. exact refresh_needs_cert. Qed.
 Print Assumptions refresh_bound_needs_cert.
+
+(* ---- requests that carry a request object (Model/RequiredJar.v, Model/Jar.v) ----
+   Which parameter set must carry the required mechanisms, and which one the session gets. *)
+
+(* validateRequestWithJAR + authnSessionWithJAR: the parameters handed to the session are exactly
+   session_source, and they passed validate_params (PKCE, openid scope, resource switch, profile rules) *)
+Theorem jar_session_built_from_validated_source : forall cfg c outer jin j p,
+  jar_session cfg c outer jin j = inr p ->
+  p = session_source cfg outer j /\ validate_params cfg p c = None.
+Proof. exact jar_session_source. Qed.
+Print Assumptions jar_session_built_from_validated_source.
+
+(* under a FAPI profile a session obtained through a request object carries the OBJECT's
+   parameters: its code_challenge and nonce are the object's, whatever is sent outside, and the
+   object's parameters alone passed validate_params *)
+Theorem fapi_session_from_object : forall cfg jc c jcl outer jin o p,
+  is_fapi (cf_profile cfg) = true -> carries jin o ->
+  jar_decision cfg jc c jcl outer jin = inr p ->
+  p = inside o /\ p_challenge p = p_challenge (ro_params o) /\ p_nonce p = p_nonce (ro_params o) /\
+  validate_params cfg (inside o) c = None.
+Proof. exact C11JarProofs.fapi_session_from_object. Qed.
+Print Assumptions fapi_session_from_object.
+
+(* ... and that decision is the only way into a session: the program run for an accepted object *)
+Theorem object_session_is_decision : forall w jx n now c q p,
+  should_use_par (w_cfg w) (ar_params (jq_req q)) c = false ->
+  should_use_jar (w_cfg w) (ar_params (jq_req q)) c (jq_jar q) = true ->
+  jar_decision (w_cfg w) (jx_cfg jx) c (jclient_of (jx_clients jx) (c_id c)) (ar_params (jq_req q)) (jq_jar q) = inr p ->
+  auth_jar_client w jx n now c q =
+  bind (start_session w n now c (new_session n c p) (jq_req q)) (fun a => Ret (finish_ares (w_cfg w) c a)).
+Proof. exact auth_jar_client_session. Qed.
+Print Assumptions object_session_is_decision.
+
+(* handler level, every state: a request with an object that obtains an artifact had
+   session_source pass validate_params for a registered client of that id *)
+Theorem object_request_validated : forall w jx st n q o,
+  cf_jar_enabled (w_cfg w) = true -> carries (jq_jar q) o -> p_request_uri (ar_params (jq_req q)) = 0 ->
+  obs_obtains (snd (step_gj w jx st n (GAuthorize q))) = true ->
+  exists c, registered w st c /\ c_id c = ar_client (jq_req q) /\
+    validate_params (w_cfg w) (session_source (w_cfg w) (ar_params (jq_req q)) (contents o)) c = None.
+Proof. exact authorize_object_validated. Qed.
+Print Assumptions object_request_validated.
+
+Theorem pushed_object_validated : forall w jx st n r o,
+  is_fapi (cf_profile (w_cfg w)) = true -> cf_jar_enabled (w_cfg w) = true ->
+  obs_obtains (snd (step_gj w jx st n (GPar r (Some o)))) = true ->
+  exists c, registered w st c /\ c_id c = cr_id (pr_cred r) /\
+    validate_params (w_cfg w) (inside o) (client_for_par (w_cfg w) c (p_redirect (inside o))) = None.
+Proof. exact par_object_validated. Qed.
+Print Assumptions pushed_object_validated.
+
+(* hence pkce_required_enforced also holds for requests with objects: the challenge must be in the
+   parameter set the session is built from - INSIDE the object under FAPI (a challenge sent only
+   outside does not help), inside or outside under the OpenID profile *)
+Theorem pkce_required_enforced_jar : forall p opts cfg statics, build p opts = Some cfg ->
+  forall jx st n d ms q o, In (WithPKCERequired d ms) opts ->
+  cf_jar_enabled cfg = true -> carries (jq_jar q) o -> p_request_uri (ar_params (jq_req q)) = 0 ->
+  pk_is_empty (p_challenge (ro_params o)) = true ->
+  (is_fapi p = true \/ pk_is_empty (p_challenge (ar_params (jq_req q))) = true) ->
+  xrefused (snd (step_gj (mkWorld cfg statics) jx st n (GAuthorize q))).
+Proof. exact C11JarProofs.pkce_required_enforced_jar. Qed.
+Print Assumptions pkce_required_enforced_jar.
+
+Theorem pkce_required_enforced_par_jar : forall p opts cfg statics, build p opts = Some cfg ->
+  forall jx st n d ms r o, In (WithPKCERequired d ms) opts ->
+  is_fapi p = true -> cf_jar_enabled cfg = true -> pk_is_empty (p_challenge (ro_params o)) = true ->
+  xrefused (snd (step_gj (mkWorld cfg statics) jx st n (GPar r (Some o)))).
+Proof. exact C11JarProofs.pkce_required_enforced_par_jar. Qed.
+Print Assumptions pkce_required_enforced_par_jar.
+
+Theorem openid_required_enforced_jar : forall p opts cfg statics, build p opts = Some cfg ->
+  forall jx st n q o, In WithOpenIDScopeRequired opts ->
+  is_fapi p = true -> cf_jar_enabled cfg = true -> carries (jq_jar q) o -> p_request_uri (ar_params (jq_req q)) = 0 ->
+  contains_openid (p_scopes (ro_params o)) = false ->
+  xrefused (snd (step_gj (mkWorld cfg statics) jx st n (GAuthorize q))).
+Proof. exact C11JarProofs.openid_required_enforced_jar. Qed.
+Print Assumptions openid_required_enforced_jar.
+
+(* the profiles' rules are read on the object *)
+Theorem fapi1_enforced_jar : forall p opts cfg statics, build p opts = Some cfg ->
+  forall jx st n q o, p = PFapi1 ->
+  cf_jar_enabled cfg = true -> carries (jq_jar q) o -> p_request_uri (ar_params (jq_req q)) = 0 ->
+  (seqb (p_resp_type (ro_params o)) "code" = false /\ seqb (p_resp_type (ro_params o)) "code id_token" = false) \/
+  (seqb (p_resp_type (ro_params o)) "code" = true /\ seqb (p_resp_mode (ro_params o)) "jwt" = false) \/
+  (contains_openid (p_scopes (ro_params o)) = true /\ is_empty (p_nonce (ro_params o)) = true) ->
+  xrefused (snd (step_gj (mkWorld cfg statics) jx st n (GAuthorize q))).
+Proof. exact C11JarProofs.fapi1_enforced_jar. Qed.
+Print Assumptions fapi1_enforced_jar.
+
+Theorem fapi2_enforced_jar : forall p opts cfg statics, build p opts = Some cfg ->
+  forall jx st n q o, p = PFapi2 ->
+  cf_jar_enabled cfg = true -> carries (jq_jar q) o -> p_request_uri (ar_params (jq_req q)) = 0 ->
+  seqb (p_resp_type (ro_params o)) "code" = false ->
+  xrefused (snd (step_gj (mkWorld cfg statics) jx st n (GAuthorize q))).
+Proof. exact C11JarProofs.fapi2_enforced_jar. Qed.
+Print Assumptions fapi2_enforced_jar.
+
+(* the monitor of the c11jar suite (Corr/C11Jar.v, clause 11) reads "a required mechanism is
+   missing from a parameter set" as mech_missing <> 0; validate_params accepts only sets where it
+   is 0, and under a FAPI profile a request served through an object has it 0 on the OBJECT *)
+Theorem mech_missing_reading_sound : forall cfg c p, validate_params cfg p c = None -> mech_missing cfg c p = 0.
+Proof. exact mech_missing_sound. Qed.
+Print Assumptions mech_missing_reading_sound.
+
+Theorem fapi_object_carries_required_mechanisms : forall w jx st n q o,
+  is_fapi (cf_profile (w_cfg w)) = true ->
+  cf_jar_enabled (w_cfg w) = true -> carries (jq_jar q) o -> p_request_uri (ar_params (jq_req q)) = 0 ->
+  obs_obtains (snd (step_gj w jx st n (GAuthorize q))) = true ->
+  exists c, registered w st c /\ c_id c = ar_client (jq_req q) /\ mech_missing (w_cfg w) c (inside o) = 0.
+Proof. exact fapi_object_carries_mechanisms. Qed.
+Print Assumptions fapi_object_carries_required_mechanisms.
